@@ -556,7 +556,7 @@ func (x *Exec) runBody(fr *Frame, entry *State) {
 		// vacuity guard: a block entered shortly after a modelled or contracted
 		// call must be reachable (a model whose success case contradicts the
 		// representation invariants would make everything after it vacuous)
-		if (x.coverBudget > 0 || thoroughTier) && (x.blockCovers < 80 || thoroughTier) && len(b.Preds) > 0 && !x.declaredDead(fr, b) {
+		if (x.coverBudget > 0 || thoroughTier) && (x.blockCovers < 80 || thoroughTier) && len(b.Preds) > 0 && !x.declaredDead(fr, b) && !defensiveExit(b) {
 			x.coverBudget--
 			x.blockCovers++
 			cname := fmt.Sprintf("%s:block#%d:cover", x.fname(fr), b.Index)
@@ -1124,3 +1124,38 @@ func (x *Exec) declaredDead(fr *Frame, b *ssa.BasicBlock) bool {
 
 // thoroughTier: every block of every function under contract gets a reachability cover
 var thoroughTier bool
+
+// defensiveExit: a block that only builds an error (or logs) and returns or
+// panics. Such a block may well be unreachable under the contract's
+// preconditions (defensive code); its unreachability is not evidence of a
+// contradictory model, so it gets no reachability cover. A block that goes on
+// with the function's work does.
+func defensiveExit(b *ssa.BasicBlock) bool {
+	for depth := 0; depth < 3 && b != nil; depth++ {
+		for _, ins := range b.Instrs {
+			switch i := ins.(type) {
+			case *ssa.Return, *ssa.Panic:
+				return true
+			case *ssa.Call:
+				n := calleeName(i.Common())
+				if !(strings.Contains(n, "slog.") || strings.HasPrefix(n, "fmt.") || strings.HasPrefix(n, "errors.") || strings.HasPrefix(n, "builtin.")) {
+					return false
+				}
+			case *ssa.Store:
+				if a, ok := rootOf(i.Addr).(*ssa.Alloc); !ok || a.Heap && a.Comment != "varargs" && a.Comment != "complit" {
+					// named results live in allocs too: a store to a local is fine
+					if !ok {
+						return false
+					}
+				}
+			case *ssa.MapUpdate, *ssa.Go, *ssa.Defer, *ssa.Send:
+				return false
+			}
+		}
+		if len(b.Succs) != 1 {
+			return false
+		}
+		b = b.Succs[0]
+	}
+	return false
+}
